@@ -365,4 +365,63 @@ theorem subscribeDecision_refused (cfg : HubCfg) (tok : Str → Option Claims) (
       · injection h with h1 _; omega
       · cases h
 
+/-! ### retention size changing between publications -/
+
+/-- contiguity only: the retained history is a suffix of the accepted updates with consecutive keys -/
+def RInvV (n : Nat) (st : RSt) : Prop :=
+  st.acc.length = n ∧ st.seq = n ∧
+  ∃ k, k ≤ n ∧ st.db.map (·.2) = st.acc.drop k ∧ st.db.map (·.1) = List.range' (k + 1) (n - k)
+
+theorem RInvV_step (size n : Nat) (st : RSt) (q : Bool × Update) (h : RInvV n st) :
+    RInvV (n + 1) (rPublish size st q) := by
+  obtain ⟨hlen, hseq, k, hk, hsnd, hfst⟩ := h
+  have hsnd' : (st.db ++ [(st.seq + 1, q.2)]).map (·.2) = (st.acc ++ [q.2]).drop k := by
+    rw [List.map_append, List.drop_append_of_le_length (by omega), hsnd]; rfl
+  have hfst' : (st.db ++ [(st.seq + 1, q.2)]).map (·.1) = List.range' (k + 1) (n + 1 - k) := by
+    have : n + 1 - k = (n - k) + 1 := by omega
+    rw [this, List.range'_concat, List.map_append, hfst, hseq]
+    simp; omega
+  refine ⟨by simp [rPublish, hlen], by simp [rPublish, hseq], ?_⟩
+  by_cases hrun : (q.1 = true ∧ ¬ (size == 0 || size ≥ st.seq + 1) = true)
+  · obtain ⟨hcoin, hsz⟩ := hrun
+    have hsz' : 0 < size ∧ size < n + 1 := by simp at hsz; omega
+    have hdb : (rPublish size st q).db
+        = (st.db ++ [(st.seq + 1, q.2)]).drop (st.seq + 1 - size + 1 - (k + 1)) := by
+      simp only [rPublish, hcoin, if_true, retain, hsz]
+      exact filter_gt_keys _ _ _ _ hfst'
+    refine ⟨k + (st.seq + 1 - size + 1 - (k + 1)), by omega, ?_, ?_⟩
+    · rw [hdb, List.map_drop, hsnd', List.drop_drop]; simp [rPublish]
+    · rw [hdb, List.map_drop, hfst', List.drop_range']
+      congr 1 <;> omega
+  · have hdb : (rPublish size st q).db = st.db ++ [(st.seq + 1, q.2)] := by
+      by_cases hcoin : q.1 = true
+      · have hsz : (size == 0 || size ≥ st.seq + 1) = true :=
+          Classical.byContradiction fun hc => hrun ⟨hcoin, hc⟩
+        simp [rPublish, hcoin, retain, hsz]
+      · have : q.1 = false := by simpa using hcoin
+        simp [rPublish, this]
+    refine ⟨k, by omega, ?_, ?_⟩
+    · rw [hdb, hsnd']; simp [rPublish]
+    · rw [hdb, hfst']
+
+theorem RInvV_foldl (qs : List (Nat × Bool × Update)) (n : Nat) (st : RSt) (h : RInvV n st) :
+    RInvV (n + qs.length) (qs.foldl (fun st p => rPublish p.1 st p.2) st) := by
+  induction qs generalizing n st with
+  | nil => simpa using h
+  | cons q qs ih =>
+    have := ih (n + 1) _ (RInvV_step q.1 n st q.2 h)
+    simpa [List.foldl, Nat.add_assoc, Nat.add_comm 1] using this
+
+/-- **Contiguity whatever the sizes**: also when the retention size changes between publications
+    (restarts with another configuration on the same file), the retained history is a contiguous suffix
+    of the accepted updates, stored under consecutive sequence numbers ending at the last one. -/
+theorem rRunV_suffix (ps : List (Nat × Bool × Update)) :
+    ∃ k, k ≤ ps.length ∧ (rRunV ps).db.map (·.2) = (rRunV ps).acc.drop k ∧
+         (rRunV ps).db.map (·.1) = List.range' (k + 1) (ps.length - k) ∧ (rRunV ps).acc.length = ps.length := by
+  have h := RInvV_foldl ps 0 {} ⟨rfl, rfl, 0, Nat.le_refl _, rfl, rfl⟩
+  simp only [Nat.zero_add] at h
+  obtain ⟨hlen, _, k, hk, h1, h2⟩ := h
+  exact ⟨k, hk, h1, h2, hlen⟩
+
+
 end Mercure
